@@ -41,7 +41,7 @@
                          coq/Model/Layout.v; the LocationMaker built inside nav() is the [] handed to walk)
      DropNavs            the caller drops the navigators it kept
      OtherCall           Schema.print / NDNav.dump / Schema.json / iterating a CSV sheet with a heading-row
-                         schema loader: no modelled state touched
+                         schema loader or through a hand-written schema (WBNav.name): no modelled state touched
 
    The two behaviours that commits 6cf36a5 and 5271a92 changed are MODE FLAGS of the model ([modes]); the modes
    of the tree under test are read from its source on every run (Gen/GlobalsParams.v). *)
